@@ -47,7 +47,8 @@ struct AnfCk<'a> {
     nodes: u64,
 }
 
-const POLY_BUILTINS: [&str; 9] = ["array_get", "array_set", "ref", "ref_get", "ref_set", "vec_new", "vec_push", "vec_get", "vec_len"];
+// runtime helpers whose type is instantiated per use (`missing` is what a match without a matching arm calls)
+const POLY_BUILTINS: [&str; 10] = ["array_get", "array_set", "ref", "ref_get", "ref_set", "vec_new", "vec_push", "vec_get", "vec_len", "missing"];
 
 impl<'a> AnfCk<'a> {
     fn err(&mut self, m: String) {
